@@ -2,14 +2,19 @@
   Line protocol of the indexer model (shared by the C07 and C08 drivers).
 
     reset                         -> ok
-    config <eco>/<k>/<name>/<ver>,...   (k = p|d|r; `-` = no stub scanner)
-                                  -> tok <index of the first config since reset with the same state token>
+    config <eco>/<k>/<name>/<ver>[/<flags>],...   (k = p|d|r; `-` = no stub scanner; flags out of NCRVX)
+                                  -> tok <index of the first config since reset with the same state token> cf=<Configure calls>
+    new <faults> <config>         (faults: `-` or comma list of l s a h = nil Locker / Store / FetchArena / client,
+                                   r = RegisterScanners fails, c<k> = the k-th stub scanner-constructor call fails)
+                                  -> as config, or `err ct=<constructor calls> rg=<RegisterScanners called> cf=..`
+    net up|down                   -> ok   (scanners flagged N return *net.AddrError while the network is down)
     index <l.l.l> <pos:f,...> <live|dead>
                                   -> e=.. s=.. st=.. er=.. b=.. sc=.. sr=.. n=.. t=..
     delete <l.l.l;l.l;...>        -> del=<deleted manifests> mf=<manifest rows> sl=<scanned_layer rows> ar=<artifact rows>
 -/
 import Driver.Util
 import ClairModel.Model.Indexer
+import ClairModel.Model.IndexerExt
 import ClairModel.Model.StateToken
 
 namespace Driver.Indexer
@@ -25,9 +30,13 @@ def items (name version : String) (l : Nat) : List Nat :=
   let v := strSum version
   (List.range ((l + a + v) % 3)).map fun i => (2 * l + 3 * a + 5 * v + 7 * i) % 10
 
-def scan (s : Scanner) (l : Layer) : List Row :=
+/-- `needsNet`: scanners flagged N; `down`: the network is down (such a scanner
+    then finds only its first item and returns it with a *net.AddrError, which
+    `result.Do` swallows). -/
+def scan (needsNet : Scanner → Bool) (down : Bool) (s : Scanner) (l : Layer) : List Row :=
   if isWhiteout s then [] else
-  let its := items s.name s.version l
+  let its0 := items s.name s.version l
+  let its := if needsNet s && down then its0.take 1 else its0
   let rows := its.map fun i => (⟨s.kind, i⟩ : Row)
   if s.kind == .pkg && strSum s.name % 2 == 1 && !its.isEmpty then
     rows ++ [⟨.repo, 100 + strSum s.name % 50⟩]
@@ -46,37 +55,98 @@ def coalOne (seen : List Nat) : List LayerArts → List Nat
 
 def whiteoutEco : Eco := { ps := [], ds := [], rs := [], fs := [{ name := "whiteout", version := "1", kind := .file }] }
 
-def sem : Sem where
-  scan := scan
+def semOf (needsNet : Scanner → Bool) (down : Bool) : Sem where
+  scan := scan needsNet down
   real := isWhiteout
   coal := fun _ arts => coalOne [] arts
   merge := fun bs => SortDedup.canon bs.flatten
   realEco := fun e => e == whiteoutEco
 
+/-- A configured stub scanner with its flags. -/
+structure Spec where
+  eco : Nat
+  s : Scanner
+  flags : String
+
+def Spec.has (x : Spec) (c : Char) : Bool := x.flags.toList.contains c
+
+def Spec.impl (x : Spec) : Impl :=
+  { s := x.s, configurable := x.has 'C', rpc := x.has 'R' && !x.has 'C', haveCfg := x.has 'V', fails := x.has 'X' }
+
 structure State where
   wd : World := {}
   tokens : List (List Nat) := []   -- pre-images, oldest first
+  specs : List Spec := []          -- the configuration in force
+  netDown : Bool := false
+
+def State.sem (s : State) : Sem :=
+  semOf (fun x => s.specs.any fun sp => sp.s == x && sp.has 'N') s.netDown
+
+/-- The scanners `configAndFilter` dropped. -/
+def State.off (s : State) (x : Scanner) : Bool :=
+  s.specs.any fun sp => sp.s == x && !(configOne sp.impl).2
 
 def parseKind : String → Option Tag
   | "p" => some .pkg | "d" => some .dist | "r" => some .repo | _ => none
 
-def parseSpec (p : String) : Option (Nat × Scanner) :=
+def parseSpec (p : String) : Option Spec :=
   match p.splitOn "/" with
-  | [e, k, n, v] => do pure ((← e.toNat?), { name := n, version := v, kind := (← parseKind k) })
+  | [e, k, n, v] => do pure ⟨(← e.toNat?), { name := n, version := v, kind := (← parseKind k) }, ""⟩
+  | [e, k, n, v, f] => do pure ⟨(← e.toNat?), { name := n, version := v, kind := (← parseKind k) }, f⟩
   | _ => none
 
+def necos (specs : List Spec) : Nat := specs.foldl (fun a p => max a (p.eco + 1)) 0
+
 /-- `libindex.New`: the stub ecosystems in index order, then the whiteout ecosystem. -/
-def mkCfg (specs : List (Nat × Scanner)) : Cfg :=
-  let n := specs.foldl (fun a p => max a (p.1 + 1)) 0
+def mkCfg (specs : List Spec) : Cfg :=
+  let n := necos specs
   let ecos := (List.range n).map fun i =>
-    let mine := (specs.filter fun p => p.1 == i).map (·.2)
+    let mine := (specs.filter fun p => p.eco == i).map (·.s)
     ({ ps := mine.filter (·.kind == .pkg), ds := mine.filter (·.kind == .dist),
        rs := mine.filter (·.kind == .repo), fs := [] } : Eco)
   ecos ++ [whiteoutEco]
 
-def parseConfig (s : String) : Option Cfg :=
-  if s == "-" then some (mkCfg []) else
-  (s.splitOn ",").mapM parseSpec |>.map mkCfg
+def parseConfig (s : String) : Option (List Spec) :=
+  if s == "-" then some [] else (s.splitOn ",").mapM parseSpec
+
+def kindLetter : Tag → String
+  | .pkg => "p" | .dist => "d" | .repo => "r" | .file => "f"
+
+def b01 (b : Bool) : String := if b then "1" else "0"
+
+def eventStr (e : CfgEvent) : String :=
+  s!"{kindLetter e.s.kind}.{e.s.name}.{if e.rpc then "R" else "C"}.{b01 e.ownFunc}.{b01 e.client}"
+
+def eventsStr (es : List CfgEvent) : String :=
+  if es.isEmpty then "-" else ",".intercalate (es.map eventStr)
+
+/-- The configured stub scanners as `configAndFilter` meets them: package,
+    distribution, repository scanners, each list in ecosystem order,
+    de-duplicated by (kind, name). -/
+def implsOf (specs : List Spec) : List Impl :=
+  let ordered := [Tag.pkg, Tag.dist, Tag.repo].flatMap fun k =>
+    (List.range (necos specs)).flatMap fun i => specs.filter fun p => p.eco == i && p.s.kind == k
+  let keep := dedupeByName (ordered.map (·.s))
+  keep.filterMap fun x => (ordered.find? fun p => p.s == x).map Spec.impl
+
+structure NewFaults where
+  locker : Bool := true
+  store : Bool := true
+  arena : Bool := true
+  client : Bool := true
+  register : Bool := false
+  ctor : Option Nat := none
+
+def parseNewFaults (s : String) : Option NewFaults :=
+  if s == "-" then some {} else
+  (s.splitOn ",").foldlM (fun (a : NewFaults) f =>
+    match f with
+    | "l" => some { a with locker := false }
+    | "s" => some { a with store := false }
+    | "a" => some { a with arena := false }
+    | "h" => some { a with client := false }
+    | "r" => some { a with register := true }
+    | _ => if f.startsWith "c" then (f.drop 1).toNat?.map fun k => { a with ctor := some k } else none) {}
 
 def kindName : Tag → String
   | .pkg => "package" | .dist => "distribution" | .repo => "repository" | .file => "file"
@@ -105,8 +175,6 @@ def oracleOf (sc : List (Nat × Fault)) : Oracle := fun p =>
 def parseLayers (s : String) : Option (List Nat) :=
   if s == "-" then some [] else (s.splitOn ".").mapM (·.toNat?)
 
-def b01 (b : Bool) : String := if b then "1" else "0"
-
 def bodyStr (b : Body) : String :=
   if b.isEmpty then "-" else ".".intercalate (b.map toString)
 
@@ -132,28 +200,43 @@ def renderIndex (cfg : Cfg) (m : Manifest) (r : IndexResult) : String :=
   let tr := if r.e.trace.isEmpty then "-" else String.ofList r.e.trace.reverse
   s!"{head} sc={b01 (r.st.manifestScanned m cfg.scanners)} sr={sr} n={r.e.pos} t={tr}"
 
+/-- `libindex.New` with the given arguments on the world's store; on success
+    the world is reconfigured. -/
+def newLine (s : State) (nf : NewFaults) (specs : List Spec) : State × String :=
+  let out := newLib { locker := nf.locker, store := nf.store, arena := nf.arena, client := nf.client,
+                      ctorErr := nf.ctor, nctor := 3 * necos specs, registerErr := nf.register, impls := implsOf specs }
+  if out.ok then
+    let cfg := mkCfg specs
+    let pre := StateToken.preimage (cfg.scanners.map tscanner)
+    let toks := s.tokens ++ [pre]
+    let k := (toks.findIdx? (· == pre)).getD 0
+    ({ s with wd := { s.wd with cfg := cfg }, tokens := toks, specs := specs }, s!"tok {k} cf={eventsStr out.events}")
+  else
+    (s, s!"err ct={out.ctorCalls} rg={b01 out.registered} cf={eventsStr out.events}")
+
 def stepLine (s : State) (l : String) : State × String :=
   if l == "reset" then ({}, "ok") else
   match Driver.words l with
   | ["config", spec] =>
     match parseConfig spec with
     | none => (s, "bad-op")
-    | some cfg =>
-      let pre := StateToken.preimage (cfg.scanners.map tscanner)
-      let toks := s.tokens ++ [pre]
-      let k := (toks.findIdx? (· == pre)).getD 0
-      ({ wd := (step sem s.wd (.config cfg)).1, tokens := toks }, s!"tok {k}")
+    | some specs => newLine s {} specs
+  | ["new", faults, spec] =>
+    match parseNewFaults faults, parseConfig spec with
+    | some nf, some specs => newLine s nf specs
+    | _, _ => (s, "bad-op")
+  | ["net", x] => ({ s with netDown := x == "down" }, "ok")
   | ["index", ls, sc, d] =>
     match parseLayers ls, parseScript sc with
     | some m, some script =>
-      let r := index sem (oracleOf script) s.wd.cfg m s.wd.st (d == "dead")
+      let r := indexOff s.off s.sem (oracleOf script) s.wd.cfg m s.wd.st (d == "dead")
       ({ s with wd := { s.wd with st := r.st, scans := r.e.scans ++ s.wd.scans } }, renderIndex s.wd.cfg m r)
     | _, _ => (s, "bad-op")
   | ["delete", spec] =>
     match (spec.splitOn ";").mapM parseLayers with
     | none => (s, "bad-op")
     | some ms =>
-      let (wd, out) := step sem s.wd (.delete ms)
+      let (wd, out) := step s.sem s.wd (.delete ms)
       let del := if out.deleted.isEmpty then "-" else ";".intercalate (out.deleted.map fun m => bodyStr m)
       ({ s with wd := wd },
        s!"del={del} mf={wd.st.manifests.length} sl={wd.st.scannedLayer.eraseDups.length} ar={wd.st.rows.eraseDups.length}")
